@@ -282,14 +282,14 @@ def rule_e(ck, R):
     ck.floor('C06.e', 'RegisterAccessCode enumerators', len(codes), 8)
 
 
-def rule_decoder_state(ck, R):
+def rule_decoder_state(ck, R, rule='C06.f'):
     """C06.f: a frame that failed reception causes no memory access - including its tail.  After an invalid escape sequence
     the SLIP decoder is in its skip-to-end-of-frame state; that state has to survive the return of regp_recv, or the next
     call starts decoding in the middle of the damaged frame and delivers the rest of it as a frame of its own (with a
     payload that happens to contain a frame image: executed and acknowledged).  So the decoder context regp_recv uses
     belongs to the instance, not to the call; every way of setting up an instance or a channel initialises it."""
     eng = R.engine({'early_ebusy', 'early_erxoverflow'})
-    ps = R.paths('regp_recv', 'C06.f', eng)
+    ps = R.paths('regp_recv', rule, eng)
     if ps is None:
         return
     bad = None
@@ -302,18 +302,60 @@ def rule_decoder_state(ck, R):
                 bad = bad or ('the SLIP decoder works on %s, an object of this call: its skip-to-end-of-frame state after an invalid escape is lost on return, '
                               'and the next call parses the tail of the damaged frame as a new frame' % fmt(e.args[0]))
     if ndec == 0:
-        return ck.broken('C06.f', 'regp_recv:decoder-state', R.where('regp_recv'), 'no rfc1055_decode call found')
-    ck.verdict(bad is None, 'C06.f', 'regp_recv:decoder-state', R.where('regp_recv'),
+        return ck.broken(rule, 'regp_recv:decoder-state', R.where('regp_recv'), 'no rfc1055_decode call found')
+    # The state is the decoder's.  regp_recv touches it in one situation only: it returns a channel error after part of a
+    # frame was received and dropped - then what follows on the channel is the rest of that frame, and the decoder has to
+    # skip to its end.  After an invalid escape sequence (-EILSEQ) the decoder has arranged that itself, knowing whether
+    # the offending octet was the frame's end; overriding it there, or re-initialising the context, loses that.
+    SFE = R.u.enums.get('RFC1055_SEARCH_FOR_END')
+    EILSEQ = -84
+    sbad = None
+    nskip = 0
+    for p in ps:
+        d = p.calls('rfc1055_decode')
+        inits = [e for e in p.calls('rfc1055_context_init') if sym.rooted_at(strip_cast(e.args[0]), P) or
+                 (strip_cast(e.args[0])[0] == '&' and sym.rooted_at(strip_cast(e.args[0])[1], P))]
+        if inits:
+            sbad = sbad or ('regp_recv re-initialises the instance\'s decoder context (%s): the skip-to-end-of-frame state of a damaged frame is thrown away, '
+                            'and the next call parses its tail as a frame' % inits[0].where())
+        st = [e for e in p.stores() if 'slip' in fmt(e.name) and sym.rooted_at(e.name, P)]
+        if not d:
+            if st:
+                sbad = sbad or 'the decoder state is written on a path without a decode call'
+            continue
+        r = d[0].result
+        failed = any(c == ('cmp', '<', r, C(0)) for c in p.cond_terms())
+        ilseq = any(c == ('cmp', '==', r, C(EILSEQ)) for c in p.cond_terms())
+        not_ilseq = any(c == ('cmp', '!=', r, C(EILSEQ)) for c in p.cond_terms())
+        block = any(c[0] == 'cmp' and c[1] == '!=' and c[3] == C(0) and fmt(c[2]).endswith('buffer.data') for c in p.cond_terms())
+        for e in st:
+            if not (failed and not_ilseq and fmt(e.name).endswith('slip.state') and e.args[0] == C(SFE)):
+                sbad = sbad or ('the decoder state is set to %s under {%s}: regp_recv may only send the decoder to skip-to-end-of-frame when it drops a partly received '
+                                'frame on a channel error other than the decoder\'s own -EILSEQ' % (fmt(e.args[0]), '; '.join(fmt(c) for c in p.cond_terms() if sym.contains(c, r))))
+        if failed and not ilseq and block and p.end == 'return':
+            nskip += 1
+            if not any(fmt(e.name).endswith('slip.state') and e.args[0] == C(SFE) for e in st):
+                sbad = sbad or ('a channel error ends the call after part of a frame was received (the block is freed), but the decoder stays in its in-frame state: '
+                                'the next call takes the rest of that frame for a frame of its own - a payload containing a frame image is executed and acknowledged')
+    if SFE is None:
+        ck.broken(rule, 'regp_recv:decoder-resync', R.where('regp_recv'), 'RFC1055_SEARCH_FOR_END not found')
+    elif nskip == 0 and sbad is None:
+        ck.broken(rule, 'regp_recv:decoder-resync', R.where('regp_recv'), 'no path returns a channel error after receiving part of a frame')
+    else:
+        ck.verdict(sbad is None, rule, 'regp_recv:decoder-resync', R.where('regp_recv'),
+                   'after a channel error with a partly received frame the decoder is sent to skip-to-end-of-frame (%d paths); otherwise regp_recv leaves the decoder state alone' % nskip
+                   if sbad is None else sbad)
+    ck.verdict(bad is None, rule, 'regp_recv:decoder-state', R.where('regp_recv'),
                'the SLIP decoder context is part of the instance (%d decode sites): a damaged frame is skipped to its end even across calls' % ndec if bad is None else bad)
     # initialisation: regp_init, regp_use_channel and the static initialiser
     for fn in ('regp_init', 'regp_use_channel'):
-        psi = R.paths(fn, 'C06.f', R.engine(set()))
+        psi = R.paths(fn, rule, R.engine(set()))
         if psi is None:
             continue
         ok = all(any(e.name == 'rfc1055_context_init' and sym.rooted_at(strip_cast(e.args[0]), P) or
                      (e.name == 'rfc1055_context_init' and strip_cast(e.args[0])[0] == '&' and sym.rooted_at(strip_cast(e.args[0])[1], P))
                      for e in p.calls()) for p in psi)
-        ck.verdict(ok, 'C06.f', fn + ':decoder-state', R.where(fn),
+        ck.verdict(ok, rule, fn + ':decoder-state', R.where(fn),
                    'initialises the instance\'s SLIP decoder context' if ok else 'leaves the instance\'s SLIP decoder context as it was (uninitialised, or in the state of the previous channel)')
 
 
